@@ -394,3 +394,85 @@ Section CCRefine.
     exists s2. pose proof (reaches_trans F s id n1 out s1 n2 [] s2 R1 R2) as R. rewrite app_nil_r in R. exact R.
   Qed.
 End CCRefine.
+
+(* ------------------------------------------------------------------ HardState monotonicity of the
+   membership-change model, for EVERY step (no restriction on the configurations) *)
+Section CCHardState.
+  Variable boot : conf.
+  Variable page1 : bool.
+  Variable id : nat.
+
+  Lemma apply_entry_hs : forall n c e, let n' := fst (apply_entry id (n, c) e) in
+    n_term n' = n_term n /\ n_vote n' = n_vote n /\ n_commit n <= n_commit n'.
+  Proof.
+    intros n c e. unfold apply_entry.
+    destruct (cc_of_payload (snd e)) as [op|]; [|cbn; repeat split; lia].
+    destruct (apply_cc c op) as [c'|]; [|cbn; repeat split; lia]. cbn [fst].
+    destruct (role_eqb _ Leader && member c' id && _); [|cbn; repeat split; lia].
+    destruct (maybe_commit_props (c_in c') (c_out c') (set_match (reset_match c c' (n_match n)) n)) as (A & B & _ & _ & E & _).
+    cbn zeta in *. cbn [set_match n_term n_vote n_commit] in *. repeat split; assumption.
+  Qed.
+
+  Lemma fold_apply_hs : forall ents n c, let n' := fst (fold_left (apply_entry id) ents (n, c)) in
+    n_term n' = n_term n /\ n_vote n' = n_vote n /\ n_commit n <= n_commit n'.
+  Proof.
+    induction ents as [|e ents IH]; intros n c; [cbn; repeat split; lia|].
+    cbn [fold_left]. destruct (apply_entry id (n, c) e) as [n1 c1] eqn:Ea.
+    destruct (apply_entry_hs n c e) as (A & B & C). cbn zeta in *. rewrite Ea in A, B, C. cbn [fst] in *.
+    destruct (IH n1 c1) as (A' & B' & C'). cbn zeta in *. repeat split; try congruence; try lia.
+  Qed.
+
+  Lemma ready_iter_hs : forall st, let st' := ready_iter page1 id st in
+    n_term (st_node st') = n_term (st_node st) /\ n_vote (st_node st') = n_vote (st_node st) /\
+    n_commit (st_node st) <= n_commit (st_node st').
+  Proof.
+    intros [[[n c] pend] applied]. unfold ready_iter, st_node. cbn [fst].
+    set (rdc := if applied <? n_commit n then (if page1 then S applied else n_commit n) else applied).
+    set (ents := firstn (rdc - applied) (skipn applied (n_log n))).
+    destruct (fold_left (apply_entry id) ents (n, c)) as [n1 c1] eqn:Ef.
+    destruct (fold_apply_hs ents n c) as (A & B & C). cbn zeta in *. rewrite Ef in A, B, C. cbn [fst] in *.
+    destruct ((applied <? rdc) && c_auto c1 && (applied <=? pend) && (pend <=? rdc) && role_eqb (n_role n1) Leader);
+      cbv beta iota zeta; cbn [fst snd].
+    - destruct (role_eqb _ Leader && member c1 id).
+      + destruct (leader_ack_props (c_in c1) (c_out c1) id (length (n_log n)) (set_log (n_log n1 ++ [(n_term n1, 120)]) n1)) as (T & V & _ & _ & Cm & _).
+        cbn zeta in *. cbn [set_log n_term n_vote n_commit] in *. repeat split; try congruence; try lia.
+      + cbn. repeat split; try congruence; try lia.
+    - destruct (role_eqb _ Leader && member c1 id); [|repeat split; try congruence; lia].
+      destruct (leader_ack_props (c_in c1) (c_out c1) id (length (n_log n)) n1) as (T & V & _ & _ & Cm & _).
+      cbn zeta in *. repeat split; try congruence; try lia.
+  Qed.
+
+  Lemma iter_hs : forall k st, let st' := iter k (ready_iter page1 id) st in
+    n_term (st_node st') = n_term (st_node st) /\ n_vote (st_node st') = n_vote (st_node st) /\
+    n_commit (st_node st) <= n_commit (st_node st').
+  Proof.
+    induction k as [|k IH]; intros st; [cbn; repeat split; lia|].
+    cbn [iter]. destruct (ready_iter_hs st) as (A & B & C). destruct (IH (ready_iter page1 id st)) as (A' & B' & C').
+    cbn zeta in *. repeat split; try congruence; try lia.
+  Qed.
+
+  (* term and commit never regress; the vote changes only with a term increase or from none *)
+  Theorem exec_cc_hs_mono : forall ev n pend,
+    hs_mono n (fst (fst (exec_cc boot page1 id ev (n, pend)))).
+  Proof.
+    intros ev n pend. unfold exec_cc. set (c := node_cfg boot n).
+    destruct (match ev with EvRecv m => is_response (m_type m) && negb (member c (m_from m)) | _ => false end);
+      [cbn [fst]; apply hs_mono_refl|].
+    assert (Hh : hs_mono n (fst (fst (handle_cc id c ev n pend)))).
+    { assert (Hg : forall ev', hs_mono n (fst (handle (c_in c) (c_out c) id ev' n)))
+        by (intros ev'; destruct (handle_good (c_in c) (c_out c) id ev' n) as (H & _); exact H).
+      unfold handle_cc. destruct ev as [|p|m| |]; try (cbn [fst]; apply Hg).
+      destruct (n_role n) eqn:Er; cbn [fst]; try apply hs_mono_refl.
+      assert (Hp : forall q, hs_mono n (propose q n)).
+      { intros q. destruct (propose_good q n) as (H & _). exact H. }
+      destruct (negb (member c id)); cbn [fst]; [apply hs_mono_refl|].
+      destruct (cc_of_payload p) as [op|]; cbn [fst]; [|apply Hp].
+      destruct ((n_commit n <? pend) || joint c && negb match op with CcLeave => true | _ => false end
+                || negb (joint c) && match op with CcLeave => true | _ => false end); cbn [fst]; apply Hp. }
+    destruct (handle_cc id c ev n pend) as [[n1 out] pend1]. cbn [fst] in Hh.
+    destruct (iter_hs (2 * length (n_log n1) + 8) (n1, c, pend1, n_commit n)) as (A & B & C). cbn zeta in *.
+    destruct (iter (2 * length (n_log n1) + 8) (ready_iter page1 id) (n1, c, pend1, n_commit n)) as [[[n2 c2] pend2] a2].
+    unfold st_node in *. cbn [fst] in *.
+    eapply hs_mono_trans; [exact Hh|]. split; [lia|split; [intros _; left; exact B|exact C]].
+  Qed.
+End CCHardState.
